@@ -2,7 +2,14 @@
 //! that an attacker-length pre-allocation aborts the (child) process instead of taking the machine down.
 
 use std::alloc::{GlobalAlloc, Layout, System};
-use std::sync::atomic::{AtomicUsize, Ordering};
+use std::sync::atomic::{AtomicBool, AtomicUsize, Ordering};
+
+/// counting is only switched on in the single-threaded C14 child processes: shared counters would make
+/// every allocation of the 16-thread explorations contend on one cache line
+static ENABLED: AtomicBool = AtomicBool::new(false);
+pub fn enable() {
+    ENABLED.store(true, Ordering::Relaxed);
+}
 
 pub struct Counting;
 
@@ -18,7 +25,7 @@ unsafe impl GlobalAlloc for Counting {
             return std::ptr::null_mut();
         }
         let p = System.alloc(l);
-        if !p.is_null() {
+        if !p.is_null() && ENABLED.load(Ordering::Relaxed) {
             let c = CUR.fetch_add(l.size(), Ordering::Relaxed) + l.size();
             PEAK.fetch_max(c, Ordering::Relaxed);
             MAXREQ.fetch_max(l.size(), Ordering::Relaxed);
@@ -26,7 +33,9 @@ unsafe impl GlobalAlloc for Counting {
         p
     }
     unsafe fn dealloc(&self, p: *mut u8, l: Layout) {
-        CUR.fetch_sub(l.size(), Ordering::Relaxed);
+        if ENABLED.load(Ordering::Relaxed) {
+            CUR.fetch_sub(l.size(), Ordering::Relaxed);
+        }
         System.dealloc(p, l)
     }
     unsafe fn realloc(&self, p: *mut u8, l: Layout, new: usize) -> *mut u8 {
@@ -34,7 +43,7 @@ unsafe impl GlobalAlloc for Counting {
             return std::ptr::null_mut();
         }
         let q = System.realloc(p, l, new);
-        if !q.is_null() {
+        if !q.is_null() && ENABLED.load(Ordering::Relaxed) {
             if new >= l.size() {
                 let c = CUR.fetch_add(new - l.size(), Ordering::Relaxed) + (new - l.size());
                 PEAK.fetch_max(c, Ordering::Relaxed);
